@@ -313,7 +313,7 @@ def check_c17(run):
                            [iso_req(mx + k + 1, rng, ISO_KEYS, "", plain=True) for k in range(nw)]
                     final = [iso_req(mx + nw + k + 1, rng, ISO_KEYS, "", plain=True) for k in range(mx)]
                     nst += 1
-                    starve = {"op": "starve", "reqs": reqs, "which": which, "waiters": nw}
+                    starve = {"op": "starve", "reqs": reqs, "which": which, "waiters": nw, "delayms": rng.choice([0, 0, 50, 800])}
                     script = [starve, {"op": "quiesce"}]
                     if rng.random() < 0.35:
                         # the pool is emptied (or its text re-installed) while the waiters wait, and refilled afterwards
@@ -769,7 +769,7 @@ def check_c07(run):
                 r = call_for(m, ["r1", "r2", "r3", "r4", "r5", "r6"], 0)
                 r.update(q=q, keys=[], fail="")
                 reqs.append(r)
-            script.append({"op": "updrace", "reqs": reqs, "updates": ups})
+            script.append({"op": "updrace", "reqs": reqs, "updates": ups, "racequeries": True})
             script.append({"op": "quiesce"})
             script.append({"op": "query", "args": ["r1", "r2", "r3", "r4", "r5", "r6", "zz"]})
             script.append(probe(q, mx, ["r1", "r2", "r3", "r4", "r5", "r6"], 0, rng))
